@@ -39,6 +39,11 @@ TABLE = {
                          'Some for exactly the same types (both follow resolved())', None),
     'semantic::type_definition::build|Option::unwrap(Region::size(Some!(next(…)),arg1.type_registry))':
         ('DC-INVARIANT', 'every region returned by resolve_regions had Some(size) there (its last loop returns Ok(None) otherwise)', None),
+    'semantic::type_definition::build|RemainderByZero(Option::unwrap(Type::alignment(….type_ref,….type_registry)))':
+        ('DC-INVARIANT', 'a field type\'s alignment is never 0: it is the pointer size, a built-in\'s max(size, 1), an extern type\'s validated align, '
+                         'or the validated/packed alignment of a resolved type', 'alignments-nonzero'),
+    'util::lcm::{closure}|DivisionByZero(util::gcd(arg2,arg3))':
+        ('DC-INVARIANT', 'gcd(acc, x) is 0 only for acc = x = 0; acc starts at 1 and every x is a non-zero alignment', 'alignments-nonzero'),
     'semantic::type_definition::resolve_regions|Option::unwrap(slice::last(deref(….regions)))':
         ('DC-INVARIANT', 'reached only when checked_sub(offset, last_address) is None, i.e. last_address > 0, so a region of '
                          'non-zero size was pushed before (P1 pairs the push with the accumulator)', 'P1'),
